@@ -1539,7 +1539,16 @@ def r10_document_uses_the_version_filter_everywhere(ctx):
     c06.r1_same_filter(Renamed(ctx, "C19.R10", "everything the document for version v says about endpoints (operations, tags) is drawn from the endpoints declared for v"))
 
 
-RULES = [("C19.R10", r10_document_uses_the_version_filter_everywhere), ("C19.R9", r9_declared_body_limit_is_the_effective_limit), ("C19.R1", r1_one_producer), ("C19.R2a", r2a_validate), ("C19.R2b", r2b_emission), ("C19.R3", r3_builders),
+def r11_tag_policy_as_declared(ctx):
+    """`registered ... as declared`: the tag policy is applied to published endpoints only, with the table of (policy, number of tags,
+    allow_other_tags) outcomes intact.  This is C02.R6, re-evaluated here (adversary change C19-H moved the tag-membership check above the
+    `unpublished` exemption, so a valid unpublished declaration could not be registered)."""
+    from . import c02
+    from .lib_c01 import Renamed
+    c02.r6_tag_policy(Renamed(ctx, "C19.R11", "a declaration's tags and `unpublished` flag are honoured by registration exactly as the tag policy table says"))
+
+
+RULES = [("C19.R11", r11_tag_policy_as_declared), ("C19.R10", r10_document_uses_the_version_filter_everywhere), ("C19.R9", r9_declared_body_limit_is_the_effective_limit), ("C19.R1", r1_one_producer), ("C19.R2a", r2a_validate), ("C19.R2b", r2b_emission), ("C19.R3", r3_builders),
          ("C19.R4", r4_new_vs_stub), ("C19.R5", r5_tables), ("C19.R6", r6_document), ("C19.R7", r7_versions), ("C19.R8", r8_doc_lines)]
 
 _M = "dropshot_endpoint/src/metadata.rs"
@@ -1843,3 +1852,4 @@ SELFTEST += [
      "why": "† (struct-literal form) the document's summary shows the description text"},
 ]
 LEVEL_TEXT += " Also (R10 = C06.R1): every endpoint scan of the document generator is filtered by the document's version."
+LEVEL_TEXT += " Also (R11 = C02.R6): registration applies the tag policy table to published endpoints only."
